@@ -91,6 +91,12 @@ def storedVariable (k : Nat) (e : Eff) : Except Err Int :=
       | Option.none => .error .typeError
   | _ => .ok e.var
 
+/-- `Effect.__init__` with nothing but type and attribute supplied: a variable-based armour/attack effect starts with
+class 0 (`armour_attack_class or 0`), everything else is unset -/
+def fresh (s : Src) : Eff :=
+  { src := s, quantity := Option.none, aaClass := (match s with | .variable => some 0 | _ => Option.none),
+    aaQty := Option.none, var := -1 }
+
 /-- `Effect.__init__` as called through `new_effect` with explicit class and amount (quantity source) -/
 def ofPair (c a : Int) (varRef : Int) : Eff :=
   { src := .quantity, quantity := Option.none, aaClass := some c, aaQty := some a, var := varRef }
